@@ -9,6 +9,7 @@ NOTE = ('Trusted: hand-written contracts of dependency crates in /verif/shim (li
         'verified on the dependency\'s own registry source against the same contract text in worlds deps_cw / deps_math / deps_storage '
         '(DESIGN.md 11.12; listed per run in evidence.coverage.dependency_contracts_verified), '
         'the environment contract of DESIGN.md section 4, structural derive(Clone/PartialEq), String/Vec extensionality. '
+        'The abstract store gives every storage handle its own component: that the namespace literals are pairwise distinct is a generated obligation (DESIGN.md 11.13). '
         'Extraction rewrites R1-R10 / annotations A1-A4 (DESIGN.md 2.2 and 11.2, counted per run in evidence) are the only differences from the compiled text.')
 
 CLAIMED = {
